@@ -556,8 +556,10 @@ def c03(tier, seed):
     jobs.append((check_dispatch.c03_instance_callers, ("K1",)))
     rets = par.run(r, jobs)
     nsites, narms = rets[len(cfgs)]
-    r.floor("run-time dispatch sites (ppv-lite86 macros)", nsites, 12)
-    r.floor("run-time dispatch arms", narms, 39)
+    # vacuity guards only (ChaCha wide/narrow, BLAKE-256/512, JH at the very least); that no site is
+    # overlooked is rule R3.6, which compares the sites with the multi-backend bodies of the instance graph
+    r.floor("run-time dispatch sites (ppv-lite86 macros)", nsites, 5)
+    r.floor("run-time dispatch arms", narms, 15)
     r.floor("configurations", len(cfgs), 2 if tier == "quick" else 7)
     if tier == "thorough":
         ok, err = check_static.build_witness(doc=True)
